@@ -287,10 +287,19 @@ def finalize_hooks(ntx):
             e.fields[('CheckedAction', 0)] = inner
             return err(e)
         return [(None, M.thunk_future(lambda ex, s2, fut: [(okv, (lambda s3: ok(M.new_vec('Vec<Event>', [])))), (z3.Not(okv), mk_err)]))]
+    def _stamp(src):
+        o = Obj('Timestamp', kind='opaque'); o.attrs['src'] = src
+        return o
+
+    def h_apply_prices(ctx):
+        ts = ctx.ex.deref_val(ctx.st, ctx.args[2]); hgt = ctx.ex.deref_val(ctx.st, ctx.args[3])
+        ctx.st.log.append(('apply_prices_args', ts.attrs.get('src') if isinstance(ts, Obj) else ts, hgt))
+        return eff('apply_prices', True)(ctx)
     empty_iter = lambda ctx: [(None, M.new_vec('Vec', []))]
     hs = [h for h in app_hooks() if 'App::execute_transaction$' not in h[0].pattern and 'construct_checked_txs' not in h[0].pattern]
     return [
-        (R(r'^(app::vote_extension::)?apply_prices_from_vote_extensions(::<.*>)?$'), eff('apply_prices', True)),
+        (R(r'^(app::vote_extension::)?apply_prices_from_vote_extensions(::<.*>)?$'), h_apply_prices),
+        (R(r'StateReadExt>::get_block_timestamp$'), lambda ctx: [(None, M.thunk_future(lambda ex_, s2, fut: [(None, ok(z3.BitVec('timestamp_in_state', 128)))]))]),
         (R(r'(^|::)App::apply$'), eff('apply_state_delta', False, lambda c, s: M.new_vec('Vec<Event>', []), kind='plain')),
         (R(r'^(cnidarium::)?StateDelta::<.*>::new$'), lambda ctx: [(None, Obj('StateDelta', kind='opaque'))]),
         (R(r'(^|::)App::prepare_commit$'), eff('prepare_commit', True, lambda c, s: z3.BitVec('app_hash', 256))),
@@ -301,7 +310,7 @@ def finalize_hooks(ntx):
         (R(r'^std::iter::repeat_n::<'), lambda ctx: [(None, _empty_iter())]),
         (R(r'^<Arc<.*> as Clone>::clone$'), lambda ctx: [(None, ctx.ex.deref_val(ctx.st, ctx.args[0]))]),
         (R(r'^Arc::<.*>::new$'), lambda ctx: [(None, Obj('Arc', kind='opaque'))]),
-        (R(r'^<(tendermint::)?Time as Into<.*Timestamp>>::into$'), lambda ctx: [(None, Obj('Timestamp', kind='opaque'))]),
+        (R(r'^<(tendermint::)?Time as Into<.*Timestamp>>::into$'), lambda ctx: [(None, _stamp(ctx.ex.deref_val(ctx.st, ctx.args[0])))]),
         (R(r'AbciErrorCode::value$'), lambda ctx: [(None, z3.BitVecVal(1, 32))]),
         (R(r'^<tendermint::abci::types::ExecTxResult as (std::default::)?Default>::default$'), lambda ctx: [(None, Obj('tendermint::abci::types::ExecTxResult', kind='opaque'))]),
         (R(r'ErrReport>::new::<|ErrReport>::wrap_err::<|^<ErrReport as ToString>::to_string$|^<str as ToString>::to_string$|^<(std::string::)?String as Clone>::clone$'), lambda ctx: [(None, Obj('s', kind='opaque'))]),
@@ -334,7 +343,7 @@ def c05_3(run):
             hsh = Obj('tendermint::Hash'); a = ex.adts.lookup('tendermint::Hash')
             sha = [i for i, v in enumerate(a['variants']) if v['name'] == 'Sha256'][0]; non = [i for i, v in enumerate(a['variants']) if v['name'] != 'Sha256'][0]
             hsh.discr = z3.If(z3.Bool('block_hash_present'), z3.BitVecVal(sha, 64), z3.BitVecVal(non, 64)); hsh.fields[('Sha256', 0)] = bh
-            req = B.struct(ex, 'tendermint::abci::request::FinalizeBlock', hash=hsh, height=z3.BitVec('height', 64))
+            req = B.struct(ex, 'tendermint::abci::request::FinalizeBlock', hash=hsh, height=z3.BitVec('height', 64), time=z3.BitVec('finalized_block_time', 128))
             app = B.struct(ex, 'app::App', execution_state=m)
             st = ex.start(cands[0], [B.cell(app), req, Obj('Storage', kind='opaque')])
             for i, p in enumerate(run.explore(ex, st, poll=True, allow_havoc=DEFAULT_CTORS + (r'^Arguments::|fmt::', r'ExecTxResult', r'FinalizeBlock'))):
@@ -345,6 +354,10 @@ def c05_3(run):
                 kind, r = A.poll_result(p)
                 effs = [(e[1], e[2]) for e in p.log if e[0] == 'eff']
                 names = [n for n, _ in effs]
+                for e in p.log:
+                    if e[0] == 'apply_prices_args':
+                        run.prove(f'oracle prices are stamped with the time and height of the block being finalized, on every path {lab}', p.pc,
+                                  z3.And(e[1] == z3.BitVec('finalized_block_time', 128) if z3.is_expr(e[1]) else z3.BoolVal(False), e[2] == z3.BitVec('height', 64) if z3.is_expr(e[2]) else z3.BoolVal(False)))
                 run.sample({'pre': state, 'txs': ntx, 'path': i, 'result': kind, 'effects': names})
                 execd = [j for j, n in enumerate(names) if n in ('pre_execute', 'check_upgrade_hashes', 'construct_checked_txs', 'execute_txs', 'post_execute')]
                 resets = [j for j, n in enumerate(names) if n == 'reset']
